@@ -38,6 +38,15 @@ claim('C08', 'model_checking', 'exhaustive enumeration of produce/DA-block/outag
       'Trusted: synctest virtual time; doubles; weakest reading of "genuinely waiting" (one count per block).',
       'DESIGN.md section 5 C08', 'explore')
 
+claim('C02', 'exploration', 'exhaustive enumeration of delivery orders (all permutations, one duplicate, one clean restart) against the real SyncLoop in a synctest bubble',
+      'For every producer chain pattern over {empty, A, B} (incl. identical transaction lists; produced by a real aggregator run) every permutation of the header/data events is pushed into the real SyncLoop input channels one event at a time, with at most one duplicated event at any later position and one clean stop/restart (SaveCache, NewManager, LoadCache) at any idle point; after every delivery the full node store is compared with the producer (hashes, transactions, state root), the height must equal the highest height whose parts were all delivered, and execution calls must be in height order.',
+      'Trusted: synctest quiescence; event-level delivery (one event at a time); DA/P2P ingress loops are exercised in C09/C13, not here; small scope (<=3 blocks above genesis).',
+      'DESIGN.md section 5 C02', 'explore')
+claim('C05', 'fault_enumeration', 'exhaustive crash-point enumeration over the durable writes of block application in the real SyncLoop, reboot on the image, all redelivery orders within budget',
+      'While the real SyncLoop applies a producer chain (three canonical pre-crash delivery orders) every durable write is a crash point (up to 2, recurring during recovery); the node is rebooted on the exact image without caches; directly after restart every height up to the recorded chain height must have a retrievable block identical to the producer and the state must be at that height; then the complete event set is delivered again in every order within the order budget and the node must reach the producer chain.',
+      'Trusted: datastore atomicity contract; executor external and idempotent on re-execution; small scope (<=3 blocks above genesis, order budget 2/4).',
+      'DESIGN.md section 5 C05', 'explore')
+
 NOT_YET = "check not built yet in this session (work in progress, see DESIGN.md section 10 for the order of work)"
 
 checks = []
